@@ -44,6 +44,21 @@ CHECKS.update({
           "Sampling of Go's per-range map-order randomisation; miss probability per 2-element-map dependence 2^-(K-1) per grammar.", "cannot force a map order: stated as sampling", "4 (C14)"),
 })
 
+CHECKS.update({
+ "C11": G("property-based testing (rapid) over declaration mixes: validity predicate on the code assignment (in-process symbol table; constants parsed from generated Go and TypeScript files; translate() exercised by a driver on declared codes, -1 and 60 other integers)",
+          "Generated-input search over token declaration mixes x both target languages.", "explicit numbers generated distinct from each other and from literal codes, as the property presupposes", "4 (C11)"),
+ "C15": G("stateful / model-based testing: generated operation histories (re-init, fresh contexts, parses mixing accepted and rejected inputs) and harness-owned token-granular interleavings of 2-4 contexts, each result compared with the same parse alone in a fresh process; plus a go build -race run of 8 concurrent contexts",
+          "Generated histories and schedules against a fresh-process model; the harness owns the interleaving schedule at token granularity.", "the race unit depends on the OS scheduler: reports are real, silence is weak", "4 (C15)"),
+ "C16": G("generated grammars (identifier/literal pools, tags, rule shapes, dense and packed tables) x five variants; oracle = the Go toolchain (batch go build) and node loading the TypeScript file",
+          "Generated-input search; the compiler/loader is the oracle.", "no tsc in the sandbox: node type stripping stands in; token names avoid target-language keywords", "4 (C16)"),
+ "C17": G("generated Go parsers run with IsTrace=true on generated inputs; the captured trace is parsed line by line and checked against the reductions recorded by the actions, the consumed input and a replay on the reference LR(0) automaton with LALR(1) lookaheads (consistent state bijection)",
+          "Generated-input search over grammars x inputs x four Go variants with a multi-part trace oracle.", "line formats as documented in README.md; blank literal and undeclared codes not used here", "4 (C17)"),
+ "C18": G("property-based testing (rapid): DrawGrammar output (valid DOT, Graphviz record labels parsed, edges, reduce annotations, accept fill) and the debug listing (states, items, gotos, lookahead sets) compared with the tables of the same in-process run",
+          "Generated-input search over grammars incl. literals special in DOT; ground truth = LR0Closure, GTable and hook lookaheads of the same run.", "sets compared as sets; blank literal not generated", "4 (C18)"),
+ "C19": G("fault injection: a catalogue of input-caused failures + random edit scripts x four output variants with a pre-existing output file of random bytes; oracle conditional on the exit status (failed => bytes unchanged; succeeded => complete, ends with the epilogue)",
+          "Generated fault sequences over every input-caused failure the code can raise.", "failure = non-zero exit status of the CLI", "4 (C19)"),
+})
+
 NOT_YET = {}
 
 def main():
